@@ -68,6 +68,37 @@ def _record_arg(body, t):
     return t["args"][1] if len(t["args"]) > 1 else None
 
 
+def completed_region(ctx, R):
+    """blocks of the runner that run only for a completed build: the `Completed` arm of a match on the build report, or the true side of a test through a small
+    accessor that is true exactly for that variant (`if report.is_completed() { .. }`)"""
+    f = ctx.f
+    out = set(variant_region(R, "BuildTerminationReport", "Completed"))
+    accessors = set()
+    for x in f.user_bodies():
+        if x.kind in ("Fn", "AssocFn") and x.ret == "bool" and x.argc == 1 and re.search(r"^&?[\w:]*BuildTerminationReport$", x.locals[1]["ty"]):
+            tps, _ = true_paths(x)
+            if tps and all(has_fact(facts, "variant", ("Completed",), lambda o: True) for (p_, facts, ro) in tps):
+                accessors.add(x.name)
+                continue
+            # `matches!(self, Self::Completed)` compiles to `discriminant(self) == <index of Completed>` without any branch
+            adt = next((a_ for p_, a_ in f.adts.items() if path_ends(p_, "BuildTerminationReport")), None)
+            idx = [i for i, v_ in enumerate(adt["variants"]) if v_["name"] == "Completed"] if adt else []
+            stmts_ = [st for blk in x.normal_blocks() for st in blk["stmts"]]
+            has_discr = any(st["rv"]["k"] == "discr" for st in stmts_)
+            eqs = [st for st in stmts_ if st["rv"]["k"] == "binop" and st["rv"]["op"] == "Eq" and any(o_["k"] == "const" and re.match(rf"{idx[0]}(_\w+)?$", str(o_.get("val"))) for o_ in (st["rv"]["a"], st["rv"]["b"]))] if idx else []
+            if has_discr and len(eqs) == 1 and not any(blk["term"]["k"] == "switch" for blk in x.normal_blocks()):
+                accessors.add(x.name)
+                continue
+            # `*self == Self::Completed` (derived PartialEq)
+            cs = [(bb_, t_) for bb_, t_ in x.calls()]
+            if len(cs) == 1 and re.search(r"BuildTerminationReport as std::cmp::PartialEq>::eq$", callee_decl(cs[0][1])) and cs[0][1].get("dest") and 0 in (x.prov.flows_forward(cs[0][1]["dest"]["local"]) | {cs[0][1]["dest"]["local"]}) \
+                    and any("Completed" in atom_aggs(x.prov.operand_atoms(a_), "BuildTerminationReport") for a_ in cs[0][1]["args"]):
+                accessors.add(x.name)
+    if accessors:
+        out |= guard_region(R, lambda d: d[0] == "call" and d[1] in accessors, True)
+    return out
+
+
 def awaited_local_calls(body, names, blocks=None):
     """[(call_bb, term, Await)] of awaited calls to one of `names`"""
     out = []
@@ -609,7 +640,7 @@ def compare_what_you_record(ctx):
 def save_on_success(ctx):
     R = runner(ctx)
     saves, _ = state_save_fns(ctx)
-    Rc = variant_region(R, "BuildTerminationReport", "Completed")
+    Rc = completed_region(ctx, R)
     ctx.need(Rc, "Completed arm of the build report in the incremental runner")
     aw = awaited_local_calls(R, set(saves), Rc)
     ctx.need(aw or True, "")
@@ -622,7 +653,14 @@ def save_on_success(ctx):
         snaps = [x for x in awaits(R) if x.callee in atom_callres(rec_at) and x.callee in ctx.f.bodies and x.producer and x.producer[0] in Rc]
         ok = False
         for sn in snaps:
-            for e in edges_on_await(R, sn, "Option", "Some"):
+            es = edges_on_await(R, sn, "Option", "Some")
+            co_ = ctx.f.coroutine_of(sn.callee)
+            if not es and co_ is not None and "Option<" not in co_.ret:
+                # a snapshot function that has nothing optional left (`with_current_output(input, output) -> Result<TargetEnvState>`, the "no input declared"
+                # case having been sorted out before): it is computed on the success side of its Result
+                es = edges_on_await(R, sn, "Result", "Ok") + [ce for (tb, sb, ce, be) in try_edges(R) if ce is not None and R.term(tb)["args"] and
+                      origin_matches(origins(R, operand_local(R.term(tb)["args"][0])), lambda x: x[0] == "await" and x[3] is sn)]
+            for e in es:
                 Rs = R.dominated_by_edge(e)
                 if cbb in Rs and _must_pass(R, Rs, cbb):
                     ok = True
@@ -789,7 +827,7 @@ def save_only_completed(ctx):
     R = runner(ctx)
     f = ctx.f
     saves, _ = state_save_fns(ctx)
-    Rc = variant_region(R, "BuildTerminationReport", "Completed")
+    Rc = completed_region(ctx, R)
     n = 0
     for sn in saves:
         for (cb, bb, ct) in ctx.r.callers_of(f.bodies[sn], prefer=[R]):
@@ -811,7 +849,7 @@ def save_only_completed(ctx):
         ctx.check(bb in Rc, f"{short(R.name)}/Completed", [site(R, bb)], "IncrementalRunResult::Completed is produced outside the Completed arm of the build report")
 
 
-@rule("C05.COMPLETED-ONLY-SUCCESS", ["C05", "C07", "C02"], """BuildTerminationReport::Completed is constructed only after the exit status was obtained and `success()` is true; a
+@rule("C05.COMPLETED-ONLY-SUCCESS", ["C05", "C07", "C02", "C04"], """BuildTerminationReport::Completed is constructed only after the exit status was obtained and `success()` is true; a
       non-zero status returns Err; Cancelled only in the cancellation arm""", "K1", floor=3)
 def completed_only_success(ctx):
     srs = ctx.r.script_runners()
@@ -819,13 +857,19 @@ def completed_only_success(ctx):
     for b in srs:
         G, _ = success_region(ctx.f, b)
         for (bb, st) in b.aggregates("BuildTerminationReport", "Completed"):
-            ctx.check(bb in G, f"{short(b.name)}/Completed", [site(b, bb)], "a build is reported Completed without a true `ExitStatus::success()`")
+            ctx.check(bb in G, f"{short(b.name)}/Completed", [site(b, bb)], "a build is reported Completed without a true `ExitStatus::success()`", props=["C05", "C07", "C02"])
         # a status that is not a success makes the function that tests it return Err: judged in the body the test is written in (the runner itself or a
         # `check(status)?` helper), on its own code
         testers = [x for x in ctx.f.user_bodies() if exit_success_edges(ctx.f.view(x))[0] and (x.name == ctx.f.bodies[b.name].name or ctx.r.fn_of(x).name in ctx.f.cg.reach([ctx.r.fn_of(b).name], cross_spawn=False))
                    and ctx.f.view(x).origin(exit_success_edges(ctx.f.view(x))[0][0].src) == x.name]
         okf = bool(testers)
         where = []
+        # a tester that only *classifies* the status into a local enum is judged where that enum is matched: in the runner
+        classifiers = [x for x in testers if x.ret in ctx.f.adts and ctx.f.adts[x.ret]["enum"]]
+        if classifiers:
+            testers = [x for x in testers if x not in classifiers]
+            if ctx.f.bodies[b.name] not in testers:
+                testers.append(ctx.f.bodies[b.name])
         for x in testers:
             xv = ctx.f.view(x)
             _, F = success_region(ctx.f, xv)
@@ -835,12 +879,14 @@ def completed_only_success(ctx):
             where += [site(xv, y) for y in ret_err]
             if not (F and ret_err and not ok_in_f):
                 okf = False
-        ctx.check(okf, f"{short(b.name)}/nonzero-is-Err", where or [b.loc()], "a non-zero exit status does not make the script runner return Err")
+        ctx.check(okf, f"{short(b.name)}/nonzero-is-Err", where or [b.loc()], "a non-zero exit status does not make the script runner return Err", props=["C05", "C07", "C02"])
         # Cancelled only in the cancellation arm
         arms = arm_by_payload(b, lambda p: "BuildCancellationMessage" in p)
         ctx.need(arms, "cancellation arm in the script runner")
         for (bb, st) in b.aggregates("BuildTerminationReport", "Cancelled"):
-            ctx.check(any(bb in a.region for a in arms), f"{short(b.name)}/Cancelled", [site(b, bb)], "Cancelled is reported outside the cancellation arm")
+            ctx.check(any(bb in a.region for a in arms), f"{short(b.name)}/Cancelled", [site(b, bb)],
+                      "Cancelled is reported outside the cancellation arm: the actor takes it for the end of a build it was told to stop and tells nobody - a one-shot run never ends",
+                      props=["C05", "C07", "C02", "C04"])
         # the exit status itself must be `?`-checked (Err of status() is an Err of the runner)
         waits = [a for a in awaits(b) if a.callee and is_process_wait(a.callee)]
         sel_waits = [bb for bb, t in b.calls() if is_process_wait(t["callee"]["base"])]
@@ -1006,6 +1052,15 @@ def snapshot_order(ctx):
             co = f.coroutine_of(a.callee)
             if any("input" in u for u in ups) and co is not None and "State" in co.ret:
                 out.append((a, a.producer[0]))
+        # a helper that is *given* an earlier observation (and hands it on, possibly after looking at the inputs again) is not itself an observation: its own
+        # awaits are in view here (it is spliced in) and are judged one by one
+        names_ = {x[0].callee for x in out}
+        def wraps(aw_):
+            t_ = aw_.producer[1]
+            if not (t_.get("inlined") or t_.get("inlined_async")):
+                return False
+            return any((atom_callres(R.prov.operand_atoms(x_, interproc=False)) & (names_ - {aw_.callee})) for x_ in t_["args"])
+        out = [x for x in out if not wraps(x[0])]
         return out
     snaps = input_snapshots()
     ctx.need(snaps, "computation of the input state from the target_input parameter")
@@ -1015,6 +1070,17 @@ def snapshot_order(ctx):
         ctx.need(feeding, "the saved record derives from an input-state computation")
         pre = [x for x in feeding if x[1] not in after]
         post = [x for x in feeding if x[1] in after]
+        # a post-script observation that is only *compared* with the pre-script one (to warn that the inputs moved) does not feed the record: its value
+        # must actually flow into what is saved
+        rec_l = operand_local(_record_arg(R, t)) if _record_arg(R, t) is not None else None
+        def flows_into_record(aw_):
+            if aw_.poll_call_bb is None or rec_l is None or R.term(aw_.poll_call_bb).get("dest") is None:
+                return True
+            fl_ = R.prov.flows_forward(R.term(aw_.poll_call_bb)["dest"]["local"])
+            # (through the comparison the value only reaches a bool)
+            return rec_l in fl_ and not all(R.locals[l_]["ty"] == "bool" for l_ in fl_ if l_ == rec_l)
+        if pre:
+            post = [x for x in post if flows_into_record(x[0])]
         if pre and not post:
             ctx.ok(f"{short(R.name)}/input", [site(R, x[1]) for x in pre], "input state taken before the script")
         elif pre and post:
